@@ -178,7 +178,7 @@ func c11Items(seed int64, tier string) []*c11Item {
 		for _, tgt := range []string{"c_inv", "c_d2"} {
 			b, _ := c11Base(seed, id)
 			for can := range b.Handlers {
-				b.Handlers[can] = "ok+didwith"
+				b.Handlers[can] = []string{"ok+didwith", "ok+didkey"}[(id/2)%2] // any DID / did:key resources only
 			}
 			for _, sp := range b.W.Specs {
 				if sp.Name == tgt {
@@ -193,7 +193,7 @@ func c11Items(seed int64, tier string) []*c11Item {
 			// ... and written into the token after signing
 			b2, _ := c11Base(seed, id)
 			for can := range b2.Handlers {
-				b2.Handlers[can] = "ok+didwith"
+				b2.Handlers[can] = []string{"ok+didwith", "ok+didkey"}[(id/2)%2]
 			}
 			for _, sp := range b2.W.Specs {
 				if sp.Name == tgt {
@@ -203,6 +203,27 @@ func c11Items(seed int64, tier string) []*c11Item {
 			items = append(items, &c11Item{Kind: "batch-nomodel", Label: fmt.Sprintf("did-resource-tampered %q@%s", ws, tgt), Batch: b2})
 			id++
 		}
+	}
+	// one request whose invocations each carry a version string nobody has seen before (signed over, so only the version
+	// makes them unacceptable... or not: whatever the verdict, all of them are handled at once and each gets a receipt)
+	for k := 0; k < 6; k++ {
+		cast := newCast(seed*86028121 + int64(id))
+		service := cast.Ed("service")
+		far := int(ucan.Now()) + 1000000
+		cw := &World{ID: id, Kind: "c11-versions", Cast: cast, Can: "store/add", Ctx: baseCtx(service)}
+		b := &Batch{ID: id, W: cw, Handlers: map[string]string{"store/add": "ok"}}
+		for i := 0; i < 48; i++ {
+			p := cast.Ed(fmt.Sprintf("v%d", i%7))
+			sp := &TokSpec{Name: fmt.Sprintf("vinv%d", i), Issuer: p, Audience: service, Exp: &far, Nonce: fmt.Sprintf("%d.%d", k, i),
+				Caps: []CapSpec{{Can: "store/add", With: p.DID.String(), Nb: Cav{}}}}
+			if i%8 != 7 {
+				sp.Tamper = "veruniq"
+			}
+			cw.Specs = append(cw.Specs, sp)
+			b.Invs = append(b.Invs, sp.Name)
+		}
+		items = append(items, &c11Item{Kind: "batch", Label: fmt.Sprintf("many-novel-versions-%d", k), Batch: b})
+		id++
 	}
 	// a delegation that cites ITSELF as its proof: its block travels under a CID whose sha2-256 digest is truncated to
 	// length 0 (bytes 01 71 12 00), which every byte string "matches", and that same CID is its only proof link
